@@ -440,3 +440,18 @@ PROPS["C01"] = {
     "rule": "see c01.py",
     "units": [],
 }
+
+# ---- units added while working through the later rounds of seeded changes (DESIGN.md 9.2) ----
+_ADDED = {
+    "C04": " ServerExit: the server process is gone (status 0 or killed) after k of 3 cases, the cases not sent any more are unmarked / known-failing / known-flaky: no success, each named FAILED. Sideband feedback texts with and without ': ' of their own.",
+    "C05": " The runner's printed report is part of the oracle: every FAILED name is a selected permutation, each once, and 'Total cases' equals the selection (shows deliveries to in-process gRPC peers). ClientKinds rows: dying client with servers whose stop takes 0.2 / 1.2 s alternately (all stopped when Run returns); server mode with a raw-request case.",
+    "C08": " Exec: run() executed with the in-process connect-go and grpc-go peers over a small gRPC suite, patterns derived from permutation names including the '(grpc ... impl)' components: outcome map == names selected by the reference matcher.",
+    "C10": " AtLimit: an answer of exactly 16 MiB is accepted like any other, one byte more is the oversize failure. Process rows with requests larger than an OS pipe buffer.",
+    "C11": " OSPeers: a real client process (runCommand) that exits after k of 4 requests of 70 / 300 KiB while the next is being written; server commands that exit without reading their start request: bounded end, one outcome per case.",
+    "C13": " BinMeta: 1-4 entries x 1-4 values per -bin key (unpadded / padded / not base64, any case, decoy keys): no feedback iff all values are unpadded base64, otherwise the first feedback names the first offending entry and kind.",
+    "C16": " Re-Init of a name whose earlier trace has been handed over is inside the domain (new hand-off); re-Init of a slot still awaited is outside.",
+    "C18": " Codec: decoding into a target that held another message (and the empty message into a non-empty target) gives the encoded message. Meta: -bin values that are not base64 are passed on as raw bytes, never dropped.",
+    "C19": " Both limit probes also in the JSON codec: JSON text padded with white space to the exact size, sent to the reference server by a plain HTTP client and to the reference client by a plain HTTP responder.",
+}
+for _pid, _txt in _ADDED.items():
+    PROPS[_pid]["rule"] = PROPS[_pid]["rule"] + _txt
